@@ -779,3 +779,45 @@ func TestPropListingExhaustive(t *testing.T) {
 	}
 	vlib.Exhaustive(fmt.Sprintf("listing(all subsets of %d names x 2 TTL colourings x %d stores x 3 APIs x %d starts x 2 x %d limits x %d filters)", len(exNames), len(kinds), len(starts), len(limits), len(filters)), true)
 }
+
+// ---------------------------------------------------------------- finding probes
+
+func probe(t *testing.T, key, kind string, items []item, r request) {
+	e := getEnv(kind)
+	dir := "/t19/probe-" + key
+	_ = e.f.Store.DeleteFolderChildren(context.Background(), util.FullPath(dir))
+	if err := e.putAll(dir, items); err != nil {
+		t.Fatal(err)
+	}
+	want := matches(items, r)
+	if len(want) > r.effLimit() {
+		want = want[:r.effLimit()]
+	}
+	res := e.call(dir, r)
+	bad := res.err != nil || !eq(res.names, want)
+	detail := fmt.Sprintf("%s: returned %q err=%v, expected %q", describe(kind, items, r), res.names, res.err, want)
+	if len(res.names) > 12 {
+		detail = fmt.Sprintf("%s: returned %d entries err=%v, expected %q", describe(kind, items, r), len(res.names), res.err, want)
+	}
+	vlib.Finding(t, key, bad, detail)
+}
+
+func TestFindingStartBeforePrefix(t *testing.T) {
+	for _, kind := range []string{fkit.LevelDB, fkit.LevelDB2, fkit.LevelDB3} {
+		probe(t, keyStartBeforePrefix, kind, []item{{Name: "a"}, {Name: "ab"}, {Name: "abb"}}, request{API: "grpc", Start: "a", Limit: 10, Prefix: "ab"})
+	}
+}
+
+func TestFindingGenericPrefixRefill(t *testing.T) {
+	probe(t, keyGenericRefill, fkit.Mem, []item{{Name: "a"}, {Name: "b"}, {Name: "c"}, {Name: "d"}}, request{API: "grpc", Limit: 2, Prefix: "zz"})
+}
+
+func TestFindingSplitPattern(t *testing.T) {
+	probe(t, keySplitPattern, fkit.LevelDB2, []item{{Name: "a"}, {Name: "ab"}, {Name: "abb"}}, request{API: "list", Limit: 10, Pattern: "ab"})
+	probe(t, keySplitPattern, fkit.LevelDB2, []item{{Name: "a"}, {Name: "ab"}, {Name: "abb"}}, request{API: "list", Limit: 10, Pattern: "a?*"})
+}
+
+func TestFindingLastFileNameReset(t *testing.T) {
+	probe(t, keyLastFileName, fkit.LevelDB2, []item{{Name: "a"}, {Name: "b", TTL: expired}}, request{API: "grpc", Limit: 10})
+	probe(t, keyLastFileName, fkit.LevelDB2, []item{{Name: "a"}, {Name: "b"}, {Name: "c", TTL: expired}, {Name: "d"}}, request{API: "grpc", Start: "b", Limit: 10})
+}
